@@ -187,6 +187,8 @@ func verifMain() int {
 		return runWorker(c)
 	case "replay":
 		return runReplay(c, os.Getenv("VERIF_REPLAY"))
+	case "probe":
+		return probeMain()
 	}
 	fmt.Fprintln(os.Stderr, "unknown VERIF_MODE", mode)
 	return 2
@@ -496,7 +498,7 @@ func finish(c *Ctx, def *PropDef, m *Part, wall time.Duration) int {
 		os.WriteFile(path, b, 0o644)
 		if i < 40 {
 			fmt.Printf("VIOLATION property=%s replay=%s\n", c.Prop, path)
-			fmt.Printf("  signature: %s (%d cases)\n  %s\n", s, v.Count, v.What)
+			fmt.Printf("  signature: %s (%d cases)\n  %s\n", s, v.Count, trunc(v.What, 400))
 		}
 		if len(vlist) < 50 {
 			vlist = append(vlist, map[string]any{"signature": s, "cases": v.Count, "what": v.What})
